@@ -17,8 +17,8 @@
 using vf::Ctx;
 using vf::strf;
 
-static const size_t ALLOC_MAX_REQUEST = size_t(1) << 16;  // largest single request a call may make (64 KiB = 2048 pieces)
-static const long ALLOC_CAP = 5000;  // allocations per library call before it is declared a runaway
+static const size_t ALLOC_MAX_REQUEST = size_t(1) << 20;  // largest single request a call may make (1 MiB = 32768 pieces)
+static const long ALLOC_CAP = 40000; // allocations per library call before it is declared a runaway
 typedef std::vector<std::string> SV;
 
 static inline ST::string mkst(const std::string &s) { return ST::string::from_validated(s.data(), s.size()); }
@@ -83,7 +83,7 @@ struct Res {
     {
         return strf("%s; %lu allocation(s) during the call, largest request %zu bytes%s%s%s", o.str().c_str(), nallocs, max_req,
                     fault ? strf(", stopped at the %ld-allocation budget", ALLOC_CAP).c_str() : "",
-                    oversize ? ", a single request exceeded the 64 KiB budget" : "", events ? (", heap event: " + event).c_str() : "");
+                    oversize ? ", a single request exceeded the 1 MiB budget" : "", events ? (", heap event: " + event).c_str() : "");
     }
 };
 static const size_t DEFAULT_MAX_REQUEST = vf::g_alloc.max_request;
@@ -392,7 +392,7 @@ static void build(vf::Plan &plan, const vf::Opts &o)
         "separator/pattern occurs in the subject and max_splits > 0 (so something is cut / substituted); tokenize: the subject contains "
         "both delimiter and non-delimiter bytes";
     plan.assumptions = {
-        "termination is decided by a per-case watchdog (3 s) plus an allocation budget per call (single request <= 64 KiB, <= 5000 allocations); a call that exhausts the budget is reported as runaway",
+        "termination is decided by a per-case watchdog (3 s) plus an allocation budget per call (single request <= 1 MiB, <= 40000 allocations); a call that exhausts the budget is reported as runaway",
         "C-string arguments denote the bytes up to their first NUL; separators/patterns containing NUL are exercised through the ST::string overloads only (DESIGN.md section 10)",
         "split(char) is only called with 0x01..0x7F (documented contract assertion)",
         "an empty separator / pattern must leave the text whole: split -> [text], replace -> text",
